@@ -16,7 +16,8 @@ RULE = ('Generated: world with 1-3 molecules whose native grids are the same, ne
         'emission; a contiguous sub-range of the model native grid; an observation of 2-6 bins whose '
         'mid-point widths are >= 4 native spacings; and (T,P) for the opacity-level clauses in cross-section '
         'and k-table layout.  Non-trivial = >=2 molecules on different grids and a requested range strictly '
-        'inside the native range; distinct by case hash.')
+        'inside the native range; distinct by case hash.'
+        ' On each opacity object an own-points request is followed by a request with the same size and end points but other interior points; observations include constant-resolving-power grids spanning more than a factor two.')
 ASSUMPTIONS = [
     'values compared at wavenumbers matched exactly; rtol 1e-9 plus the licensed cut-off slack (transmission: 2 sum (Rp+z) dz e^-10 / Rs^2 absolute on the depth; emission: e^-10 relative), because the saturation test takes a minimum over the wavenumbers being computed',
     'binning clause judged only for native spacing <= 1/4 of the widest mid-point bin (narrower than the statement, see DESIGN.md); FluxBinner with implied (mid-point) widths',
